@@ -132,10 +132,10 @@ def gen_roundtrip_case(rng, maxleaves):
     internal_taxa = rng.random() < 0.15
     opts = {"no_lengths": rng.random() < 0.15, "p_internal": rng.choice([0.0, 0.3, 0.8]),
             "internal_taxa": internal_taxa, "struct1": struct1, "no_space": no_space}
-    nl_max = rng.choice([1, 2, 3, 5, maxleaves])
+    nl_max = rng.choice([1, 2, 4, maxleaves, maxleaves])
     shapes = []
     for _ in range(ntrees):
-        nl = rng.randint(1, nl_max)
+        nl = rng.randint(max(1, nl_max // 2), nl_max)
         shapes.append(dvtrees.gen_tree(rng, nl, lengths="none", unifurcations=rng.choice([0.0, 0.0, 0.2])))
     nint = sum(1 for s in shapes for n in dvtrees.preorder(s) if n["kids"])
     pool = gen_pool(rng, nl_max + (nint if internal_taxa else 0), struct1, no_space)
@@ -386,14 +386,14 @@ def observe(case):
 # oracle: the property, stated naively on the implementation's behaviour
 # ----------------------------------------------------------------------------------------------
 
-def expected_tree(sp, schema, wkw, is_root=True):
+def expected_tree(sp, schema, wkw, is_root=True, got_root_len=None):
     """what the property promises to get back for spec node sp"""
     leaf = not sp["kids"]
     ln = None if sp["len"] is None else repr(float(sp["len"]))
     if wkw.get("suppress_edge_lengths"):
         ln = None
-    if schema == "nexml" and is_root and ln is None:
-        ln = repr(0.0)                      # "NeXML renders a missing root-edge length as 0"
+    if schema == "nexml" and is_root and ln is None and got_root_len == repr(0.0):
+        ln = repr(0.0)                      # allowed: "NeXML renders a missing root-edge length as 0"
     return {"taxon": sp["taxon"], "label": None if leaf else (sp["label"] or None), "len": ln,
             "kids": [expected_tree(k, schema, wkw, False) for k in sp["kids"]]}
 
@@ -428,6 +428,8 @@ def classify(case, pipe, got_tree=None, want_tree=None):
     """narrow key for a failing round trip"""
     if pipe.startswith("nexml") and got_tree is not None and got_tree != want_tree and got_tree == zero_missing(want_tree):
         return "nexml-missing-length-zero"
+    if pipe.startswith("nexml") and not case["ns"]:
+        return "nexml-empty-namespace"
     if pipe.startswith("nexml"):
         every = []
         for _r, sp in case["trees"]:
@@ -435,8 +437,6 @@ def classify(case, pipe, got_tree=None, want_tree=None):
                 every.extend(x for x in (nd["taxon"], nd["label"]) if x)
         if any(ch in '"\\&<\t' or ord(ch) > 127 for l in every + list(case["ns"]) for ch in l):
             return "nexml-label-attribute-escaping"
-    if pipe.startswith("nexml") and not case["ns"]:
-        return "nexml-empty-namespace"
     if pipe == "nexus-translate" and not case["ns"]:
         return "nexus-translate-empty-namespace"
     labels = []
@@ -471,14 +471,14 @@ def oracle(case, obs):
             return ("%s round trip returned %d trees for %d written" % (pipe, len(got["trees"]), len(trees)), classify(case, pipe))
         for k, ((rooted, sp), (r2, t2)) in enumerate(zip(trees, got["trees"])):
             want_r = rooted
-            if fmt == "nexml" and rooted is None:
-                want_r = False              # "NeXML renders ... an undefined rooting state as unrooted"
+            if fmt == "nexml" and rooted is None and r2 is False:
+                want_r = False              # allowed: "NeXML renders ... an undefined rooting state as unrooted"
             if r2 != want_r:
                 key = classify(case, pipe)
                 if key.startswith("roundtrip-"):
                     key = "rooting-" + pipe
                 return ("%s round trip: tree %d rooting %r came back as %r (options %s)" % (pipe, k, rooted, r2, wkw), key)
-            want = expected_tree(sp, fmt, wkw)
+            want = expected_tree(sp, fmt, wkw, got_root_len=t2["len"])
             if strip_leaf_labels(t2) != want:
                 return ("%s round trip: tree %d differs: wrote %s, read %s" % (pipe, k, json.dumps(want)[:300], json.dumps(strip_leaf_labels(t2))[:300]),
                         classify(case, pipe, strip_leaf_labels(t2), want))
@@ -525,12 +525,25 @@ def c_ptree(n):
                                          ";".join(zs(c) for c in cm), ";".join(c_ptree(k) for k in kids))
 
 
+_VARIANT = {}
+
+
+def blank_after_comma():
+    """which form of the reader's `,)` handling the working tree has (Newick.ro_blank_after_comma):
+    decided by replaying the trailing-blank-leaf finding on the implementation"""
+    if "v" not in _VARIANT:
+        import dendropy
+        t = dendropy.Tree.get(data="(a,);", schema="newick")
+        _VARIANT["v"] = len(t.seed_node.child_nodes()) == 2
+    return _VARIANT["v"]
+
+
 def c_ropts(rkw):
-    return "(mkRopts %s %s %s %s %s %s %s)" % (
+    return "(mkRopts %s %s %s %s %s %s %s %s)" % (
         ROOTING_COQ[rkw.get("rooting")], cb(rkw.get("suppress_edge_lengths", False)),
         cb(rkw.get("preserve_underscores", False)), cb(rkw.get("suppress_internal_node_taxa", True)),
         cb(rkw.get("suppress_leaf_node_taxa", False)), cb(rkw.get("terminating_semicolon_required", True)),
-        cb(rkw.get("case_sensitive_taxon_labels", False)))
+        cb(rkw.get("case_sensitive_taxon_labels", False)), cb(blank_after_comma()))
 
 
 def c_read(rd):
@@ -602,6 +615,37 @@ def witness_cases():
                 "trees": [[None, {"taxon": None, "label": None, "len": None, "kids": [leaf("a"), dict(blank)]}]]})
     out.append({"kind": "roundtrip", "ns": ["a"], "wkw": {}, "internal_taxa": False,
                 "trees": [[None, {"taxon": None, "label": None, "len": None, "kids": [dict(blank), leaf("a")]}]]})
+    return out
+
+
+def exhaustive_cases():
+    """every ordered rose-tree shape with <= 5 leaves (no unifurcations) plus unifurcation chains, with fixed tricky
+    labels, each under the three rooting states and two option settings"""
+    tricky = ["a b", "x_y", "it's", "(1)", "[c]", "a=b", "b\\c", "Ab", "7", "\u00e9 \u03a9", "a:b", ";;", "q\tr"]
+    lens = [None, 0, 1.5, 1e-05, 12]
+    out = []
+    shapes = []
+    for n in range(1, 6):
+        shapes.extend(dvtrees.all_shapes(n))
+    shapes.extend([[[]], [[[]]], [[[], []]], [[[[]]], []]])      # unifurcations
+    k = 0
+    for shape in shapes:
+        for rooted, wkw in ((True, {}), (False, {"unquoted_underscores": True, "preserve_spaces": True}), (None, {"preserve_spaces": True})):
+            counter = [0]
+
+            def conv(s):
+                nonlocal k
+                k += 1
+                nd = {"taxon": None, "label": None, "len": lens[k % len(lens)], "kids": [conv(x) for x in s]}
+                if not s:
+                    nd["taxon"] = tricky[counter[0] % len(tricky)]
+                    counter[0] += 1
+                elif k % 3 == 0:
+                    nd["label"] = tricky[(k // 3) % len(tricky)]
+                return nd
+            sp = conv(shape)
+            used = [nd["taxon"] for nd in spec_nodes(sp) if nd["taxon"] is not None]
+            out.append({"kind": "roundtrip", "ns": used, "trees": [[rooted, sp]], "wkw": dict(wkw), "internal_taxa": False})
     return out
 
 
@@ -677,6 +721,8 @@ def run(tier, seed, replay=None):
             cases.append(gen_reader_case(ctx.rng))
         else:
             cases.append(gen_roundtrip_case(ctx.rng, maxleaves))
+    if tier == "thorough":
+        cases.extend(exhaustive_cases())
     for c in cases:
         count_case(ctx, c)
     core.corr_stage(ctx, cases, observe, to_coq, HEADER, "case_ok", oracle=oracle, show_fn="case_show",
@@ -685,6 +731,7 @@ def run(tier, seed, replay=None):
         level="proof",
         rule="random rose trees (1-8 leaves quick / 1-20 thorough, unifurcations, single nodes, 1-3 trees per list) x labels biased to "
              "()[]{}/\\,;:=*'\"`+-<>_ space tab, digits-only, mixed case, non-ASCII; lengths None/0/ints/scientific floats; rooting "
-             "True/False/None; option pairs (default), (unquoted_underscores+preserve_underscores), preserve_spaces, both; 30% reader-only "
+             "True/False/None; option pairs (default), (unquoted_underscores+preserve_underscores), preserve_spaces, both; thorough adds every "
+             "ordered shape with <=5 leaves x 3 rooting/option settings with fixed tricky labels; 30% reader-only "
              "texts (token soup, grammar with blanks/comments, perturbed statements); fixed witness cases. Non-trivial: >=3 nodes and a "
              "label with a special or non-ASCII character (round trip), text of >=4 characters (reader-only); distinct by content")
